@@ -405,6 +405,17 @@ def functions(prog, chk):
         else:
             keys = ("variant", "accessors", "primitives", "binops") if set(s.get("accessors", [])) & {"one_number", "number_pair", "number_triple"} and "flatten" not in s.get("accessors", []) else ("variant", "accessors", "primitives")
             same = all(g.get(k) == s.get(k) for k in keys)
+            if not same and g.get("variant") == s.get("variant"):
+                # the arm's fingerprint (accessors / primitives / operators) differs from the reviewed one.  One primitive
+                # or operator exchanged for its opposite is a changed function; anything else is an arm that was
+                # rewritten (helpers, slice patterns, iterator chains), which the fingerprint cannot judge
+                swaps = [{"min", "max"}, {"floor", "ceil"}, {"sin", "cos"}, {"asin", "acos"}, {"Add", "Sub"}, {"Mul", "Div"}, {"Lt", "Gt"}, {"Le", "Ge"}, {"Lt", "Le"}, {"Gt", "Ge"}, {"Eq", "Ne"}, {"to_degrees", "to_radians"}, {"first", "last"}, {"head", "tail"}]
+                dp = set(g.get("primitives") or []) ^ set(s.get("primitives") or [])
+                db = set(g.get("binops") or []) ^ set(s.get("binops") or []) if "binops" in keys else set()
+                swapped = (dp in swaps and not db and g.get("accessors") == s.get("accessors")) or (db in swaps and not dp and g.get("accessors") == s.get("accessors"))
+                if not swapped:
+                    chk.undecided("A15.function-wiring", name, fs.where(), f"the arm of `{name}` was rewritten (now {dict((k, g.get(k)) for k in keys)}, reviewed {dict((k, s.get(k)) for k in keys)}): its fingerprint cannot say whether it computes the same")
+                    continue
             chk.ob(same, "A15.function-wiring", name, fs.where(), f"`{name}` -> {s['variant']}: arguments via {s['accessors']}, primitives {s['primitives']} {s['binops']}", f"`{name}` is wired to {g} but the reviewed reference is {s}")
     # documented functions exist
     doc = "/repo/docs/mdbook/src/reference/expressions.md"
